@@ -1,7 +1,9 @@
-(** C29 property theorems (partial: about the model of the REPAIRED sending loop, fixes/C29-negative-window.patch;
-    h2's framing/window bookkeeping and the priority tree are oracles; data is length-abstracted).  For every initial
-    window, every set of streams with arbitrary chunked bodies, and every schedule of loop iterations,
-    WINDOW_UPDATEs and SETTINGS changes. *)
+(** C29 property theorems (partial: about the model of the REPAIRED code -- fix 1323982 and
+    fixes/C29-window-reopen-wakes-sender.patch; h2's framing/window bookkeeping and the priority tree are oracles;
+    data is length-abstracted; completion after ample window is checked on the implementation by the oracle, it is
+    not a theorem).  For every initial window, every set of streams whose applications are static, manual or
+    producer-driven, and every schedule of loop iterations, WINDOW_UPDATEs, SETTINGS changes, application writes and
+    finishes. *)
 From Coq Require Import List ZArith Bool Arith.
 From C29 Require Import Model Proofs.
 Import ListNotations.
@@ -9,15 +11,15 @@ Local Open Scope Z_scope.
 
 (** every DATA frame is non-empty and fits the stream window, the connection window and the max frame size as they
     stood when it was sent *)
-Theorem never_exceeds_stream_or_connection_window_partial : forall w bodies ops i n sw cw mf,
-  In (EData i n sw cw mf) (log (run w bodies ops)) -> 0 < n /\ n <= sw /\ n <= cw /\ n <= mf.
+Theorem never_exceeds_stream_or_connection_window_partial : forall w apps ops i n sw cw mf,
+  In (EData i n sw cw mf) (log (run w apps ops)) -> 0 < n /\ n <= sw /\ n <= cw /\ n <= mf.
 Proof. exact reach_window. Qed.
 Print Assumptions never_exceeds_stream_or_connection_window_partial.
 
 (** END_STREAM is sent only when every written byte of the stream has been sent, and for every stream still open
     bytes sent + bytes queued = bytes written (lengths; byte order is checked on the implementation by the oracle) *)
-Theorem each_stream_body_complete_partial : forall w bodies ops,
-  let s := run w bodies ops in
+Theorem each_stream_body_complete_partial : forall w apps ops,
+  let s := run w apps ops in
   (forall i snt bdy, In (EEnd i snt bdy) (log s) -> snt = bdy) /\
   (forall x, In x (streams s) -> sent x + sum_data (q x) = body x).
 Proof. exact reach_body. Qed.
@@ -28,7 +30,7 @@ Print Assumptions each_stream_body_complete_partial.
 Theorem blocked_streams_resume_on_window_open_partial : forall i s x n rest,
   find_stream i (streams s) = Some x -> q x = Some n :: rest ->
   0 < n -> 0 < swin x -> 0 < cwin s -> 0 < maxf s ->
-  log (adv_on i s) =
-  EData i (Z.min n (Z.min (maxf s) (Z.min (swin x) (cwin s)))) (swin x) (cwin s) (maxf s) :: log s.
+  In (EData i (Z.min n (Z.min (maxf s) (Z.min (swin x) (cwin s)))) (swin x) (cwin s) (maxf s))
+     (log (adv_on i s)).
 Proof. exact any_choice_sends. Qed.
 Print Assumptions blocked_streams_resume_on_window_open_partial.
